@@ -558,8 +558,9 @@ def plan_specs(ctx, specs):
         j.d = depth_of(spec)
         try:
             j.grid = build(spec)
-        except Exception as e:
-            ctx.stat("build-error:" + type(e).__name__)
+        except Exception as e:     # every generated specification is valid: the real constructor failing is a disagreement
+            ctx.compare(dict(spec=spec, what="build"), {"error": type(e).__name__ + ":" + str(e)[:80]}, "ok",
+                        note="C31 real grid constructor raised on a valid specification")
             continue
         j.igrid = j.grid.grid if spec["kind"] == "flat" else j.grid
         j.at_slices = []
